@@ -90,3 +90,55 @@ def real_exit_cases():
                 yield {'name': f"{name}|exit@{at}:{kind}", 'ok': ok, 'detail': '' if ok else f"rc={p.returncode}; {why}; {p.stderr[-200:]}"}
     finally:
         shutil.rmtree(tmp, ignore_errors=True)
+
+
+_BIG_CHILD = r"""
+import os, sys
+sys.path.insert(0, {root!r})
+import numpy, pygaps
+pygaps.logger.disabled = True
+import pygaps.parsing.sqlite as S
+from pgv import sqlfault as SF
+db = {db!r}
+n = 150000
+p = numpy.linspace(1e-6, 1.0, n)
+iso = pygaps.PointIsotherm(pressure=p, loading=5 * 3 * p / (1 + 3 * p), branch='ads', material='pgv_big_mat', adsorbate='pgv_prior_ads', temperature=77.0,
+                           pressure_mode='absolute', pressure_unit='bar', loading_basis='molar', loading_unit='mmol', material_basis='mass', material_unit='g',
+                           temperature_unit='K')
+rec = SF.Recorder(os.path.dirname(db))
+rec.snapshot_crash = lambda path: os._exit(9)
+S.sqlite3 = SF.Sqlite3Proxy(rec, SF.Plan('commit', 'die_before'))
+S.isotherm_to_db(iso, db_path=db, verbose=False)
+os._exit(0)
+"""
+
+
+def big_transaction_case():
+    """a transaction larger than SQLite's page cache (150 000 points, several MB) killed just before its commit: the file
+    afterwards (as the next connection sees it, i.e. after journal recovery) holds nothing of it"""
+    from pgv import sqlfault as SF
+    from pgv.checks import c09
+    import pygaps
+    pygaps.logger.disabled = True
+    tmp = tempfile.mkdtemp(prefix='pgv-c09big-')
+    try:
+        tpl = c09.make_template(tmp)
+        db = os.path.join(tmp, 'big.db')
+        shutil.copyfile(tpl, db)
+        pre = SF.dump(db)
+        code = _BIG_CHILD.format(root=ROOT, db=db)
+        p = subprocess.run([sys.executable, '-c', code], capture_output=True, text=True, timeout=900,
+                           env=dict(os.environ, PYTHONPATH=f"{os.environ.get('PGV_REPO', '/repo')}/src:{ROOT}"))
+        state = SF.dump(db)
+        ok = p.returncode == 9 and state == pre
+        diff = '; '.join(f"{t}: {len(pre[t] or [])}->{len(state[t] or [])} rows" for t in SF.TABLES if state[t] != pre[t])
+        return {'name': 'isotherm_to_db.point.150000_points|exit@commit:die_before', 'ok': ok,
+                'detail': '' if ok else f"rc={p.returncode}; {diff}; {p.stderr[-200:]}"}
+    finally:
+        shutil.rmtree(tmp, ignore_errors=True)
+
+
+@replayer('c09.big')
+def _big(spec, model):
+    r = big_transaction_case()
+    return {'confirmed': not r['ok'], 'observed': r['detail'], 'expected': 'nothing of the killed upload in the file'}
